@@ -8,5 +8,6 @@ func DetectParallelInstance(s SyncStatus, threshold time.Duration) bool {
 	if s.ExternalSelfEventCreated.Before(s.Startup) {
 		return false
 	}
-	return s.Since(s.ExternalSelfEventCreated) < threshold
+	// compare timestamps rather than a saturated duration: Now - created < threshold
+	return s.ExternalSelfEventCreated.Add(threshold).After(s.Now)
 }
